@@ -43,7 +43,11 @@ fn sync_policy_reports_exactly_the_knobs() {
 fn sync_builder_new_equals_max_capacity() {
     let n: u64 = kani::any();
     let a = CacheBuilder::<u8, Val, Cache<u8, Val>>::new(n).build_with_hasher(BH::default());
-    let b = CacheBuilder::<u8, Val, Cache<u8, Val>>::default().max_capacity(n).initial_capacity(kani::any()).build_with_hasher(BH::default());
+    // initial capacities the allocator could not serve anyway (>= 2^40 entries) are outside the claim:
+    // Inner::new adds the write-queue size to it (usize overflow only within 384 of usize::MAX)
+    let init: usize = kani::any();
+    kani::assume(init < (1usize << 40));
+    let b = CacheBuilder::<u8, Val, Cache<u8, Val>>::default().max_capacity(n).initial_capacity(init).build_with_hasher(BH::default());
     assert!(a.policy().max_capacity() == Some(n) && b.policy().max_capacity() == Some(n), "C17: CacheBuilder::new(n) == max_capacity(n)");
     assert!(a.policy().time_to_live().is_none() && a.policy().time_to_idle().is_none(), "C17: no expiry unless configured");
     kani::cover!(true, "end reached");
